@@ -165,6 +165,10 @@ func inspectVal(defs []meta.Definition, v reflect.Value) *model.Tree {
 					continue
 				}
 			}
+			if lf, ok := d.(meta.Leafable); ok && lf.Type().Format() == val.FmtAny {
+				t.Leaves[id] = model.Leaf{Canon: model.CanonAny(fd.Interface())}
+				continue
+			}
 			t.Leaves[id] = model.Leaf{Canon: model.CanonRaw(fd.Interface())}
 		}
 	}
